@@ -19,6 +19,7 @@ import tempfile
 
 PY = '/venv/bin/python'
 EPOCH = '1700000000'
+os.environ.setdefault('SOURCE_DATE_EPOCH', EPOCH)     # fontTools stamps head.modified with the clock otherwise
 
 
 # =====================================================================================================================
@@ -355,6 +356,726 @@ def run_history(world_args, history):
     return out
 
 
+# =====================================================================================================================
+# 1. image cache: direct calls of get_image_from_uri / RasterImage.get_x_object with an in-memory fetcher
+
+CACHE_URLS = ['mem://logo.png', 'mem://exif.jpg', 'mem://pattern.svg', 'mem://garbage', 'mem://fail', 'mem://blue.jpg']
+CACHE_FILES = ['logo_small.png', 'not-optimized-exif.jpg', 'pattern.svg', None, None, 'blue.jpg']
+CACHE_VARIANTS = [
+    dict(),                                        # 0 defaults: orientation from-image
+    dict(orientation='none'),                      # 1
+    dict(orientation=(90, False)),                 # 2
+    dict(options={'dpi': 96}),                     # 3
+    dict(options={'optimize_images': True}),       # 4
+    dict(options={'jpeg_quality': 30}),            # 5
+    dict(forced_mime_type='image/svg+xml'),        # 6
+]
+CACHE_RATIOS = [2, 4]          # the model's ratio r stands for dpi_ratio = 1/r; 1 = no down-sampling
+_CACHE_STATE = {}
+
+
+def _vid(desc):
+    return int(hashlib.md5(repr(desc).encode()).hexdigest()[:7], 16)
+
+
+def _fetcher_for(counter):
+    repo = os.environ.get('VERIF_REPO', '/repo')
+
+    def fetcher(url):
+        counter.append(url)
+        i = CACHE_URLS.index(url)
+        if url == 'mem://fail':
+            raise OSError('no route to host')
+        if url == 'mem://garbage':
+            return {'string': b'this is not an image', 'mime_type': 'image/png', 'redirected_url': url}
+        data = open(os.path.join(repo, 'tests', 'resources', CACHE_FILES[i]), 'rb').read()
+        mime = 'image/svg+xml' if url.endswith('.svg') else ('image/png' if url.endswith('.png') else 'image/jpeg')
+        return {'string': data, 'mime_type': mime, 'redirected_url': url}
+    return fetcher
+
+
+def _load(cache, fetcher, u, v):
+    from weasyprint import DEFAULT_OPTIONS
+    from weasyprint.images import get_image_from_uri
+    kw = dict(CACHE_VARIANTS[v])
+    options = dict(DEFAULT_OPTIONS)
+    options.update(kw.pop('options', {}))
+    return get_image_from_uri(cache, fetcher, options, CACHE_URLS[u], **kw)
+
+
+def _img_desc(img):
+    from weasyprint.images import RasterImage
+    if img is None:
+        return None
+    if isinstance(img, RasterImage):
+        return ('raster', img.width, img.height, img.mode, img.format, hashlib.md5(img.image_data.data).hexdigest(),
+                img._dpi, img.optimize, img._jpeg_quality, img.invert_colors, img.id)
+    from xml.etree import ElementTree
+    return ('svg', hashlib.md5(ElementTree.tostring(img._svg.tree._etree_node)).hexdigest(), img._base_url)
+
+
+def _emit(img, r):
+    """get_x_object(interpolate=True, dpi_ratio=1/r) -> description of the embedded object (or None: not a raster)."""
+    from weasyprint.images import RasterImage
+    from fractions import Fraction
+    if not isinstance(img, RasterImage):
+        return None
+    x = img.get_x_object(True, 1 if r == 1 else float(Fraction(1, r)))
+    data = b''.join(getattr(p, 'data', p) if not isinstance(p, bytes) else p for p in x.stream)
+    sm = x.extra.get('SMask')
+    smd = None
+    if sm is not None:
+        smd = hashlib.md5(b''.join(getattr(p, 'data', p) if not isinstance(p, bytes) else p for p in sm.stream)).hexdigest()
+    return ('x', x.extra['Width'], x.extra['Height'], str(x.extra['ColorSpace']), str(x.extra['Filter']),
+            hashlib.md5(data).hexdigest(), smd)
+
+
+def cache_table():
+    """Values of every data term (u, v, rs) measured with cold, isolated calls: tget[(u,v,rs)] = id of the object's
+    description after the re-samplings rs; temit[(u,v,rs+[flag])] = id of the embedded object (flag 1: a ratio-1 emit
+    on that data; flag 0: the emit that produced the last re-sampling); -1 when nothing is embedded."""
+    if 'table' in _CACHE_STATE:
+        return _CACHE_STATE['table']
+    import itertools
+    fails, ok, tget, temit = [], [], [], []
+    for u in range(len(CACHE_URLS)):
+        try:
+            _fetcher_for([])(CACHE_URLS[u])
+        except OSError:
+            fails.append(u)
+    seqs = [()] + [(a,) for a in CACHE_RATIOS] + list(itertools.product(CACHE_RATIOS, CACHE_RATIOS))
+    for u in range(len(CACHE_URLS)):
+        for v in range(len(CACHE_VARIANTS)):
+            if _load({}, _fetcher_for([]), u, v) is None:
+                continue
+            ok.append([u, v])
+            for rs in seqs:
+                img = _load({}, _fetcher_for([]), u, v)
+                last = None
+                for r in rs:
+                    last = _emit(img, r)
+                tget.append([[u, v, list(rs)], _vid(_img_desc(img))])
+                if rs:
+                    temit.append([[u, v, list(rs) + [0]], -1 if last is None else _vid(last)])
+                one = _emit(img, 1)
+                temit.append([[u, v, list(rs) + [1]], -1 if one is None else _vid(one)])
+    _CACHE_STATE['table'] = dict(fails=fails, ok=ok, tget=tget, temit=temit)
+    return _CACHE_STATE['table']
+
+
+def cache_history(case):
+    """case: dict(history=[['get', u, v] | ['emit', u, r]]) on ONE dictionary.  Observations: for get [object index in
+    order of first appearance or -1, value id]; for emit the value id or -1; and the number of fetcher calls."""
+    import logging
+    logging.getLogger('weasyprint').setLevel(logging.CRITICAL + 1)
+    cache = {}
+    calls = []
+    fetcher = _fetcher_for(calls)
+    objs = []
+    obs = []
+    for op in case['history']:
+        if op[0] == 'get':
+            img = _load(cache, fetcher, op[1], op[2])
+            if img is None:
+                obs.append(['get', -1, -1])
+            else:
+                for i, o in enumerate(objs):
+                    if o is img:
+                        break
+                else:
+                    objs.append(img)
+                    i = len(objs) - 1
+                obs.append(['get', i, _vid(_img_desc(img))])
+        else:
+            img = cache.get(CACHE_URLS[op[1]])
+            e = _emit(img, op[2]) if img is not None else None
+            obs.append(['emit', -1 if e is None else _vid(e)])
+    out = dict(obs=obs, nfetch=len(calls), fetched=calls)
+    out.update(cache_table())
+    return out
+
+
+# =====================================================================================================================
+# 2. resource names: direct calls on pdf.stream.Stream
+
+def _parse_name(key, category):
+    key = str(key)
+    if category == 'ExtGState':
+        if key[0] in 'aA':
+            return ['A', key[0] == 'A', key[1:]]
+        return ['S', int(key[1:])]
+    if category == 'XObject':
+        if key[0] == 'x':
+            return ['X', int(key[1:])]
+        return ['I', int(key[1:-1]), key[-1] == '1']
+    if category == 'Pattern':
+        return ['P', int(key[1:])]
+    return ['Sh', int(key[1:])]
+
+
+class _StubImage:
+    def __init__(self, ident, log):
+        self.id = ident
+        self._log = log
+
+    def get_x_object(self, interpolate, dpi_ratio):
+        import pydyf
+        self._log.append(('i%s%d' % (self.id, int(interpolate)), dpi_ratio))
+        return pydyf.Stream([b''], pydyf.Dictionary({'Type': '/XObject'}))
+
+
+def names_case(case):
+    """case: dict(calls=[[kind, sid, ...]]) ; kinds alpha(a, stroke) state group pattern shading image(id, interp, ratio).
+    Streams are numbered in creation order (0 = the page stream)."""
+    import pydyf
+    from types import SimpleNamespace
+    from weasyprint.matrix import Matrix
+    from weasyprint.pdf.stream import Stream
+    images = {}
+    stub_images, chosen = {}, []
+    resources = pydyf.Dictionary({
+        'ExtGState': pydyf.Dictionary(), 'XObject': pydyf.Dictionary(), 'Pattern': pydyf.Dictionary(),
+        'Shading': pydyf.Dictionary(), 'ColorSpace': pydyf.Dictionary()})
+    streams = [Stream({}, (0, 0, 10, 10), resources, images, False, compress=False)]
+    res = [resources]
+    names = []
+    for c in case['calls']:
+        kind, sid = c[0], c[1]
+        if sid >= len(streams):
+            return {'bad_sid': True}
+        st = streams[sid]
+        if kind == 'alpha':
+            before = list(st._resources['ExtGState'])
+            st.set_alpha(c[2], stroke=c[3])
+            key = ('A' if c[3] else 'a') + str(c[2])
+            assert key in st._resources['ExtGState'], (key, before)
+            names.append(_parse_name(key, 'ExtGState'))
+        elif kind == 'state':
+            before = set(st._resources['ExtGState'])
+            st.set_state(pydyf.Dictionary({'Type': '/ExtGState'}))
+            new = [k for k in st._resources['ExtGState'] if k not in before]
+            names.append(_parse_name(new[0], 'ExtGState') if len(new) == 1 else ['?', new])
+        elif kind == 'group':
+            g = st.add_group(0, 0, 5, 5)
+            streams.append(g)
+            res.append(g._resources)
+            names.append(_parse_name(g.id, 'XObject'))
+        elif kind == 'pattern':
+            p = st.add_pattern(0, 0, 5, 5, 5, 5, Matrix())
+            streams.append(p)
+            res.append(p._resources)
+            names.append(_parse_name(p.id, 'Pattern'))
+        elif kind == 'shading':
+            sh = st.add_shading(2, 'RGB', (0, 1), (0, 0, 1, 1), False, pydyf.Dictionary())
+            names.append(_parse_name(sh.id, 'Shading'))
+        elif kind == 'image':
+            img = stub_images.setdefault(c[2], _StubImage(c[2], chosen))
+            n = st.add_image(img, c[3], c[4])
+            names.append(_parse_name(n, 'XObject'))
+    dicts = [[[_parse_name(k, cat) for k in r[cat]] for cat in ('ExtGState', 'XObject', 'Pattern', 'Shading')] for r in res]
+    set_orders = [list(v['dpi_ratios']) for v in images.values()]
+    image_keys = list(images)
+    # write time: _use_references picks the ratio of every image (get_x_object of the stub records it)
+    from weasyprint.pdf import _use_references
+    pdf = pydyf.PDF()
+    resources['Font'] = None
+    for r in res:
+        r['Font'] = None
+    _use_references(pdf, resources, images)
+    imgs = [[_parse_name(k, 'XObject'), dict(chosen).get(k)] for k in image_keys]
+    return dict(names=names, dicts=dicts, images=imgs, set_orders=set_orders, chosen_order=[k for k, _ in chosen])
+
+
+def font_hashes(case):
+    """Font.hash / Font.name for the fonts of a small render: must be md5-derived from the description string."""
+    import logging
+    logging.getLogger('weasyprint').setLevel(logging.CRITICAL + 1)
+    from weasyprint import HTML
+    document = HTML(string=case['html'], base_url=_base_url(None)).render()
+    got = []
+
+    def finisher(doc, pdf):
+        for key, font in doc.fonts.items():
+            from weasyprint.text.ffi import ffi, pango
+            got.append([font.hash, font.name.decode(), font.family.decode(), font.weight, font.style])
+    pdf = document.write_pdf(finisher=finisher, pdf_identifier=b'x')
+    import re
+    return dict(fonts=got, base_fonts=sorted(set(m.decode() for m in re.findall(rb'/BaseFont /([A-Z]{6}\+[^\s/>]+)', pdf))))
+
+
+# =====================================================================================================================
+# 3. zoom: generate_pdf on stub pages (exact rationals in, floats out) and full renders read back with pdfread
+
+def zoom_direct(case):
+    """case: dict(zoom='n/d', pages=[dict(w,h,bleed=[l,t,r,b],links=[[x1,y1,x2,y2]],anchors=[[x,y]],bookmarks=[[x,y]])])
+    -> per page MediaBox/TrimBox/BleedBox, CTM in effect inside Page.paint, link Rects, destination points (floats as
+    exact 'n/d' strings)."""
+    from fractions import Fraction
+    from types import SimpleNamespace
+    import pydyf
+    from weasyprint import DEFAULT_OPTIONS
+    from weasyprint.document import Document, DocumentMetadata, Page
+    from weasyprint.draw import stacked
+    from weasyprint.pdf import generate_pdf
+
+    ctms = []
+
+    class StubPage(Page):
+        def __init__(self):
+            pass
+
+        def paint(self, stream, scale=1):
+            with stacked(stream):
+                stream.transform(a=scale, d=scale)
+                ctms.append(tuple(stream.ctm.values))
+
+    pages = []
+    boxes = []
+    for pi, p in enumerate(case['pages']):
+        page = StubPage()
+        page.width, page.height = Fraction(p['w']), Fraction(p['h'])
+        page.bleed = dict(zip(('left', 'top', 'right', 'bottom'), (Fraction(b) for b in p['bleed'])))
+        page.links = []
+        pb = []
+        for li, r in enumerate(p.get('links', [])):
+            box = SimpleNamespace()
+            pb.append(box)
+            page.links.append(('external', 'https://example.org/%d' % li, tuple(Fraction(x) for x in r), box))
+        boxes.append(pb)
+        page.anchors = {'a%d_%d' % (pi, i): (Fraction(x), Fraction(y), Fraction(x), Fraction(y)) for i, (x, y) in enumerate(p.get('anchors', []))}
+        page.bookmarks = [(1, 'b%d' % i, (Fraction(x), Fraction(y)), 'open') for i, (x, y) in enumerate(p.get('bookmarks', []))]
+        page.forms = {None: []}
+        pages.append(page)
+    zoom = Fraction(case['zoom'])
+    zf = float(zoom)
+    document = Document(pages, DocumentMetadata(), None, SimpleNamespace(font_map=None))
+    pdf = generate_pdf(document, None, zf, **dict(DEFAULT_OPTIONS))
+
+    def q(x):
+        return str(Fraction(x))
+    out = []
+    page_objs = [o for o in pdf.objects if isinstance(o, pydyf.Dictionary) and o.get('Type') == '/Page']
+    names = {}
+    if 'Names' in pdf.catalog and 'Dests' in pdf.catalog['Names']:
+        arr = pdf.catalog['Names']['Dests']['Names']
+        for i in range(0, len(arr), 2):
+            names[arr[i].string] = arr[i + 1]
+    outl = [o for o in pdf.objects if isinstance(o, pydyf.Dictionary) and 'Title' in o and 'Dest' in o]
+    for pi, (po, p) in enumerate(zip(page_objs, case['pages'])):
+        rec = dict(media=[q(x) for x in po['MediaBox']], trim=[q(x) for x in po['TrimBox']], bleed=[q(x) for x in po['BleedBox']],
+                   ctm=[q(x) for x in ctms[pi]],
+                   rects=[[q(x) for x in b.link_annotation['Rect']] for b in boxes[pi]],
+                   dests=[[q(names['a%d_%d' % (pi, i)][2]), q(names['a%d_%d' % (pi, i)][3])] for i in range(len(p.get('anchors', [])))],
+                   outlines=[[q(o['Dest'][2]), q(o['Dest'][3])] for o in outl if o['Title'].string.startswith('b') and
+                             o['Dest'][0] == pdf.page_references[pi]])
+        out.append(rec)
+    return dict(pages=out, zoom_float=q(zf))
+
+
+def _num(x):
+    return float(x) if isinstance(x, (int, float)) else None
+
+
+def read_pdf_geometry(data):
+    """Everything positional in a PDF: page boxes, annotation rectangles, destinations, outline destinations, the CTM
+    set up by the first two cm operators of each page and the rest of the page content (as text)."""
+    import pdfread
+    d = pdfread.parse(data)
+    out = {'problems': d.problems[:3], 'pages': []}
+    for p in d.pages():
+        rec = {}
+        for k in ('MediaBox', 'TrimBox', 'BleedBox'):
+            v = d.resolve(p.get(k))
+            rec[k] = [_num(x) for x in v] if v else None
+        annots = []
+        for a in d.resolve(p.get('Annots')) or []:
+            a = d.resolve(a)
+            da = a.get('DA')
+            fs = None
+            if da is not None:
+                m = re.search(rb'/\S+\s+([-0-9.]+)\s+Tf', bytes(da))
+                fs = float(m.group(1)) if m else None
+            ap_bbox = None
+            ap = d.resolve(a.get('AP'))
+            if ap:
+                n = d.resolve(ap.get('N'))
+                if isinstance(n, dict):
+                    for v in n.values():
+                        v = d.resolve(v)
+                        if isinstance(v, pdfread.StreamObj) and 'BBox' in v.dict:
+                            ap_bbox = [_num(x) for x in d.resolve(v.dict['BBox'])]
+                            m = re.search(rb'/\S+\s+([-0-9.]+)\s+Tf', d.stream_data(v) or b'')
+                            if m:
+                                fs = fs if fs is not None else float(m.group(1))
+                elif isinstance(n, pdfread.StreamObj) and 'BBox' in n.dict:
+                    ap_bbox = [_num(x) for x in d.resolve(n.dict['BBox'])]
+            annots.append({'subtype': str(a.get('Subtype')), 'rect': [_num(x) for x in d.resolve(a.get('Rect'))],
+                           'font_size': fs, 'ap_bbox': ap_bbox})
+        rec['annots'] = annots
+        content = d.page_content(p) or b''
+        ops = pdfread.tokenize_content(content)
+        m = [1.0, 0.0, 0.0, 1.0, 0.0, 0.0]
+        ncm = 0
+        rest_from = 0
+        for i, (op, args) in enumerate(ops):
+            if op == 'cm':
+                a, b, c, dd, e, f = [float(x) for x in args]
+                m = [a * m[0] + b * m[2], a * m[1] + b * m[3], c * m[0] + dd * m[2], c * m[1] + dd * m[3],
+                     e * m[0] + f * m[2] + m[4], e * m[1] + f * m[3] + m[5]]
+                ncm += 1
+                if ncm == 2:
+                    rest_from = i + 1
+                    break
+            elif op != 'q':
+                break
+        rec['ctm'] = m
+        rec['ncm'] = ncm
+        rec['rest'] = hashlib.sha1(repr([(op, [repr(a) for a in args]) for op, args in ops[rest_from:]]).encode()).hexdigest()[:16]
+        rec['nops'] = len(ops)
+        out['pages'].append(rec)
+    dests = []
+    root = d.root or {}
+    names = d.resolve(root.get('Names')) or {}
+    dn = d.resolve(names.get('Dests')) or {}
+    arr = d.resolve(dn.get('Names')) or []
+    for i in range(0, len(arr), 2):
+        dest = d.resolve(arr[i + 1])
+        dests.append([bytes(arr[i]).decode('latin1'), _num(dest[2]), _num(dest[3])])
+    out['dests'] = dests
+    outl = []
+    for o in d.objects.values():
+        if isinstance(o, dict) and 'Title' in o and 'Dest' in o:
+            dest = d.resolve(o['Dest'])
+            outl.append([o['Title'].text() if hasattr(o['Title'], 'text') else str(o['Title']), _num(dest[2]), _num(dest[3])])
+    out['outlines'] = outl
+    return out
+
+
+def zoom_render(case):
+    """case: dict(html, css, opts, zooms=[floats]) -> geometry of the PDF at every zoom (fresh render each time) and at
+    every zoom from ONE Document written several times."""
+    import logging
+    for name in ('weasyprint', 'fontTools'):
+        logging.getLogger(name).setLevel(logging.CRITICAL + 1)
+    from weasyprint import HTML
+    opts = dict(case.get('opts', {}))
+    opts['pdf_identifier'] = b'c19'
+    opts.pop('media_type', None)
+    out = {'fresh': [], 'same_document': []}
+    for z in case['zooms']:
+        pdf = HTML(string=case['html'], base_url=_base_url(None)).write_pdf(zoom=z, uncompressed_pdf=True, **opts)
+        out['fresh'].append(read_pdf_geometry(pdf))
+    document = HTML(string=case['html'], base_url=_base_url(None)).render(**opts)
+    out['layout'] = layout_fingerprint(document)
+    for z in case['zooms']:
+        pdf = document.write_pdf(zoom=z, uncompressed_pdf=True, **opts)
+        g = read_pdf_geometry(pdf)
+        out['same_document'].append({'pages': [{k: p[k] for k in ('MediaBox', 'rest', 'ctm')} for p in g['pages']]})
+    return out
+
+
+# =====================================================================================================================
+# 4. Document.copy
+
+def copy_direct(case):
+    """case: dict(n=number of pages, sel=None ('all') | [indices], as_iter=bool) on a Document of stub pages."""
+    from types import SimpleNamespace
+    from weasyprint.document import Document
+    pages = [SimpleNamespace(idx=i) for i in range(case['n'])]
+    meta, fetcher, fc = object(), object(), object()
+    d = Document(pages, meta, fetcher, fc)
+    d.fonts['k'] = 'font'
+    if case['sel'] is None:
+        c = d.copy()
+    else:
+        sel = [pages[i] for i in case['sel']]
+        c = d.copy(iter(sel) if case.get('as_iter') else (tuple(sel) if case.get('as_tuple') else sel))
+    return dict(pages=[p.idx for p in c.pages], same_objects=all(p is pages[p.idx] for p in c.pages), is_list=isinstance(c.pages, list),
+                meta=c.metadata is meta, fetcher=c.url_fetcher is fetcher, fc=c.font_config is fc, fonts=len(c.fonts),
+                original=[p.idx for p in d.pages], original_fonts=len(d.fonts), new_object=c is not d,
+                aliased=(c.pages is d.pages))
+
+
+def _page_text_ops(d, page):
+    """Content of a page with resource names replaced by their rank of first use (names are document-wide counters)."""
+    import pdfread
+    ops = pdfread.tokenize_content(d.page_content(page) or b'')
+    ren = {}
+    out = []
+    for op, args in ops:
+        a2 = []
+        for a in args:
+            if isinstance(a, pdfread.Name) and op in ('Do', 'gs', 'scn', 'SCN', 'sh', 'Tf', 'cs', 'CS'):
+                a2.append(ren.setdefault(str(a), '#%d' % len(ren)) if not str(a).startswith(('Device', 'Pattern')) else str(a))
+            else:
+                a2.append(repr(a))
+        out.append((op, a2))
+    return hashlib.sha1(repr(out).encode()).hexdigest()[:16], len(ops)
+
+
+def copy_render(case):
+    """case: dict(html, css, sels=[[indices]]) -> per selection: number of pages, per page (MediaBox, content hash modulo
+    resource numbering) next to the same for the full document; layout of the pages of the copy."""
+    import logging
+    for name in ('weasyprint', 'fontTools'):
+        logging.getLogger(name).setLevel(logging.CRITICAL + 1)
+    import pdfread
+    from weasyprint import HTML
+    document = HTML(string=case['html'], base_url=_base_url(None)).render()
+    full = document.write_pdf(pdf_identifier=b'c19', uncompressed_pdf=True)
+    d = pdfread.parse(full)
+    fullp = [([_num(x) for x in d.resolve(p['MediaBox'])],) + _page_text_ops(d, p) for p in d.pages()]
+    out = dict(npages=len(document.pages), full=fullp, copies=[])
+    before = layout_fingerprint(document)
+    for sel in case['sels']:
+        sel = [i % len(document.pages) for i in sel] if document.pages else []
+        c = document.copy([document.pages[i] for i in sel])
+        try:
+            pdf = c.write_pdf(pdf_identifier=b'c19', uncompressed_pdf=True)
+            dd = pdfread.parse(pdf)
+            pp = [([_num(x) for x in dd.resolve(p['MediaBox'])],) + _page_text_ops(dd, p) for p in dd.pages()]
+            out['copies'].append(dict(sel=sel, pages=pp, problems=dd.problems[:2]))
+        except Exception as exc:
+            out['copies'].append(dict(sel=sel, exc=_exc_info(exc)))
+    again = document.write_pdf(pdf_identifier=b'c19', uncompressed_pdf=True)
+    out['original_unchanged'] = (again == full) and layout_fingerprint(document) == before
+    return out
+
+
+# =====================================================================================================================
+# 5. flex / grid write-back: one layout pass against two passes of the same boxes
+
+def _flex_html(c):
+    items = []
+    n = 0
+    for li, line in enumerate(c['lines']):
+        w = 120 // len(line)
+        for it in line:
+            n += 1
+            st = ['flex:none', 'width:%dpx' % w, 'box-sizing:content-box', 'margin:0', 'overflow:hidden' if it.get('clip') else '']
+            if it['style'] is not None:
+                st.append('height:%spx' % it['style'])
+            if it['pad']:
+                st.append('padding-top:%spx' % it['pad'])
+            st.append('align-self:%s' % ('stretch' if it['stretch'] else 'flex-start'))
+            items.append('<div id="i%d" style="%s">%s</div>' % (n, ';'.join(x for x in st if x), '<br>'.join('a' * 1 for _ in range(it['nat'] // 10))))
+    cst = ['display:flex', 'flex-wrap:wrap', 'width:120px', 'align-content:stretch', 'row-gap:%spx' % c['gap']]
+    if c['cross'] is not None:
+        cst.append('height:%spx' % c['cross'])
+    return '<div id="f" style="%s">%s</div>' % (';'.join(cst), ''.join(items))
+
+
+_STYLE = ('<style>@page{size:400px 1000px;margin:0}body{margin:0;font-family:weasyprint;font-size:10px;line-height:10px}'
+          '@font-face{font-family:weasyprint;src:url(weasyprint.otf)}</style>')
+
+
+def _geom(pages, ids):
+    out = {}
+    for pi, page in enumerate(pages):
+        stack = [page._page_box]
+        while stack:
+            b = _unwrap(stack.pop())
+            el = getattr(b, 'element', None)
+            if el is not None and el.get('id') in ids and b.element_tag == 'div' and type(b).__name__ not in ('LineBox', 'TextBox'):
+                out.setdefault(el.get('id'), (pi, b.position_x, b.position_y, b.width, b.height, b.padding_top))
+            stack.extend(getattr(b, 'children', ()) or ())
+    return out
+
+
+def relayout_flex(case):
+    """case: dict(cross, gap, lines=[[dict(style, nat, pad, stretch)]]) -> for the one-pass and the two-pass document:
+    per line (y of its items relative to the container, content heights of the items); number of flex_layout calls."""
+    import logging
+    logging.getLogger('weasyprint').setLevel(logging.CRITICAL + 1)
+    from fractions import Fraction
+    from weasyprint import HTML
+    from weasyprint.layout import flex as flexmod, block as blockmod
+    counts = {}
+    orig = flexmod.flex_layout
+
+    def counting(context, box, *a, **k):
+        if box.element is not None and box.element.get('id') == 'f':
+            counts['n'] = counts.get('n', 0) + 1
+        return orig(context, box, *a, **k)
+    flex = _flex_html(case)
+    wrap = '<div style="break-inside:avoid">%s<div style="height:600px"></div></div>' % flex
+    docs = {'once': _STYLE + wrap, 'twice': _STYLE + '<div style="height:500px"></div>' + wrap}
+    out = {}
+    nitems = sum(len(l) for l in case['lines'])
+    ids = {'f'} | {'i%d' % (i + 1) for i in range(nitems)}
+    blockmod.flex_layout = counting
+    try:
+        for name, html in docs.items():
+            counts.clear()
+            document = HTML(string=html, base_url=_base_url(None)).render()
+            g = _geom(document.pages, ids)
+            f = g['f']
+            lines = []
+            n = 0
+            for line in case['lines']:
+                ys, hs = [], []
+                for it in line:
+                    n += 1
+                    pi, x, y, w, h, pt = g['i%d' % n]
+                    ys.append(str(Fraction(y) - Fraction(f[2])))
+                    hs.append(str(Fraction(h)))
+                lines.append([ys, hs])
+            out[name] = dict(lines=lines, passes=counts.get('n', 0), page=f[0], container_height=str(Fraction(f[4])))
+    finally:
+        blockmod.flex_layout = orig
+    return out
+
+
+def relayout_grid(case):
+    """The grid counterpart of the witness (not modelled): auto tracks, one stretched and one start-aligned item."""
+    import logging
+    logging.getLogger('weasyprint').setLevel(logging.CRITICAL + 1)
+    from weasyprint import HTML
+    grid = ('<div id=f style="display:grid;grid-template-%s:auto auto;width:100px;height:100px">'
+            '<div id=i1>a</div><div id=i2 style="%s-self:start">bbb<br>b</div></div>' % (
+                'columns' if case['axis'] == 'x' else 'rows', 'justify' if case['axis'] == 'x' else 'align'))
+    wrap = '<div style="break-inside:avoid">%s<div style="height:600px"></div></div>' % grid
+    out = {}
+    for name, html in (('once', _STYLE + wrap), ('twice', _STYLE + '<div style="height:500px"></div>' + wrap)):
+        document = HTML(string=html, base_url=_base_url(None)).render()
+        g = _geom(document.pages, {'f', 'i1', 'i2'})
+        f = g['f']
+        out[name] = [[g[k][1] - f[1], g[k][2] - f[2], g[k][3], g[k][4]] for k in ('i1', 'i2')]
+    return out
+
+
+# =====================================================================================================================
+# 7. witnesses of the findings handed over (each returns True while the defect is still there)
+
+def probe(case):
+    import gc
+    import logging
+    for name in ('weasyprint', 'fontTools'):
+        logging.getLogger(name).setLevel(logging.CRITICAL + 1)
+    import weasyprint
+    from weasyprint import HTML
+    base = _base_url(None)
+    name = case['name']
+    ident = dict(pdf_identifier=b'c19')
+    if name == 'inline-svg':
+        out = {}
+        for kind, body in (
+                ('mask', '<svg xmlns="http://www.w3.org/2000/svg" width="50" height="30"><defs><mask id="m"><rect width="10" height="12" '
+                         'fill="white"/></mask></defs><rect width="20" height="12" fill="teal" mask="url(#m)"/></svg>'),
+                ('pattern', '<svg xmlns="http://www.w3.org/2000/svg" width="50" height="30"><defs><pattern id="p" width="4" height="4" '
+                            'patternUnits="userSpaceOnUse"><rect width="2" height="2"/></pattern></defs><rect width="20" height="12" '
+                            'fill="url(#p)"/></svg>')):
+            h = HTML(string=body)
+            before = html_snapshot(h)
+            a = h.write_pdf(**ident)
+            b = h.write_pdf(**ident)
+            out[kind] = dict(tree_mutated=html_snapshot(h) != before, second_render_differs=a != b,
+                             fresh_equals_first=HTML(string=body).write_pdf(**ident) == a)
+        return out
+    if name == 'marks':
+        d = HTML(string='<style>@page{size:100px;bleed:3px;marks:crop cross}</style><p>abc').render()
+        a, b, c = (d.write_pdf(**ident) for _ in range(3))
+        return dict(rewrite_differs=a != b, grows=len(a) < len(b) < len(c))
+    if name == 'cache-options':
+        doc = '<img src="not-optimized.jpg" style="width:5px"><img src="logo_small.png" style="width:10px">'
+        h = HTML(string=doc, base_url=base)
+        out = {}
+        for opt, first, second in (('dpi', {'dpi': 30}, {'dpi': 300}), ('optimize_images', {}, {'optimize_images': True}),
+                                   ('jpeg_quality', {'jpeg_quality': 10}, {'jpeg_quality': 90})):
+            cache = {}
+            h.write_pdf(cache=cache, **ident, **first)
+            warm = h.write_pdf(cache=cache, **ident, **second)
+            cold = h.write_pdf(**ident, **second)
+            out[opt] = warm != cold
+        return out
+    if name == 'cache-dpi':
+        small = '<img src="logo_small.png" style="width:10px">'
+        large = '<img src="logo_small.png" style="width:100px">'
+        cache = {}
+        HTML(string=small, base_url=base).write_pdf(cache=cache, dpi=96, **ident)
+        warm = HTML(string=large, base_url=base).write_pdf(cache=cache, dpi=96, **ident)
+        cold = HTML(string=large, base_url=base).write_pdf(dpi=96, **ident)
+        g = lambda pdf: sorted((o.dict.get('Width'), o.dict.get('Height')) for o in __import__('pdfread').parse(pdf).objects.values()
+                               if hasattr(o, 'dict') and o.dict.get('Subtype') == 'Image')
+        jpg = '<img src="not-optimized.jpg" style="width:2px">'
+        cache = {}
+        j = [HTML(string=jpg, base_url=base).write_pdf(cache=cache, dpi=96, **ident) for _ in range(3)]
+        return dict(warm_differs=warm != cold, warm_images=g(warm), cold_images=g(cold), jpeg_reencoded_each_render=len(set(j)) > 1)
+    if name == 'fonts-persist':
+        html = ('<style>@font-face{font-family:weasyprint;src:url(weasyprint.otf)}body{font-family:weasyprint}</style><p>abc')
+        d1 = HTML(string=html, base_url=base).render()
+        d1.write_pdf(**ident)
+        later = d1.write_pdf(full_fonts=True, **ident)
+        first = HTML(string=html, base_url=base).render().write_pdf(full_fonts=True, **ident)
+        return dict(full_fonts_after_default_write_differs=later != first, sizes=[len(later), len(first)])
+    if name == 'copy-pdfua':
+        d = HTML(string='<p>abc<p style="break-before:page">def').render()
+        ok = d.write_pdf(pdf_variant='pdf/ua-1', **ident)
+        try:
+            d.copy(d.pages[:1]).write_pdf(pdf_variant='pdf/ua-1', **ident)
+            return dict(raises=False)
+        except AttributeError as exc:
+            return dict(raises=True, exc=_exc_info(exc), original_ok=len(ok) > 0)
+    if name == 'attachment-clock':
+        import datetime as dt
+
+        class Clock(dt.datetime):
+            t = 0
+
+            @classmethod
+            def now(cls, tz=None):
+                return dt.datetime(2020, 1, 1, 0, 0, cls.t)
+        doc = '<link rel=attachment href="pattern.png"><p>abc'
+        old = weasyprint.datetime
+        weasyprint.datetime = Clock
+        try:
+            Clock.t = 1
+            a = HTML(string=doc, base_url=base).write_pdf(**ident)
+            a2 = HTML(string=doc, base_url=base).write_pdf(**ident)
+            Clock.t = 2
+            b = HTML(string=doc, base_url=base).write_pdf(**ident)
+        finally:
+            weasyprint.datetime = old
+        return dict(depends_on_clock=a != b, same_clock_same_bytes=a == a2)
+    if name == 'diskcache':
+        import tempfile
+        folder = os.path.join(tempfile.mkdtemp(prefix='c19-'), 'cache')
+        doc = '<img src="pattern.png">'
+        ref = HTML(string=doc, base_url=base).write_pdf(**ident)
+        d1 = HTML(string=doc, base_url=base).render(cache=folder)
+        d2 = HTML(string=doc, base_url=base).render(cache=folder)
+        del d1
+        gc.collect()
+        try:
+            return dict(raises=False, same=d2.write_pdf(**ident) == ref)
+        except FileNotFoundError as exc:
+            return dict(raises=True, exc=_exc_info(exc))
+    if name == 'form-zoom':
+        doc = '<input value=abc style="font-size:10px">'
+        out = []
+        for z in (1, 2):
+            g = read_pdf_geometry(HTML(string=doc).write_pdf(zoom=z, pdf_forms=True, uncompressed_pdf=True, **ident))
+            a = [x for p in g['pages'] for x in p['annots'] if x['subtype'] == 'Widget'][0]
+            out.append([a['rect'][2] - a['rect'][0], a['font_size']])
+        return dict(widths=[out[0][0], out[1][0]], font_sizes=[out[0][1], out[1][1]], font_not_scaled=out[0][1] == out[1][1])
+    if name == 'bleedbox':
+        doc = '<style>@page{size:100px;bleed:20px}</style><p>abc'
+        g1 = read_pdf_geometry(HTML(string=doc).write_pdf(zoom=1, **ident))['pages'][0]
+        g2 = read_pdf_geometry(HTML(string=doc).write_pdf(zoom=2, **ident))['pages'][0]
+        return dict(zoom1=g1['BleedBox'], zoom2=g2['BleedBox'], not_linear=[2 * x for x in g1['BleedBox']] != g2['BleedBox'])
+    raise ValueError(name)
+
+
+def run_direct(fn, cases):
+    out = []
+    for c in cases:
+        try:
+            out.append(['ok', globals()[fn](c)])
+        except Exception as exc:
+            out.append(['exc', _exc_info(exc)])
+    return out
+
+
 def main():
     import logging
     for name in ('weasyprint', 'weasyprint.progress', 'fontTools'):
@@ -362,12 +1083,14 @@ def main():
     job = json.loads(sys.stdin.read())
     import weasyprint   # noqa
     result = {'histories': [], 'module_mutated': []}
+    if 'direct' in job:
+        result['direct'] = run_direct(job['direct']['fn'], job['direct']['cases'])
     with tempfile.TemporaryDirectory(prefix='c19-') as tmpdir:
         keep = job.get('keep_dir')
         if keep:
             os.makedirs(keep, exist_ok=True)
         mod_before = module_snapshot() if job.get('module_snapshot', True) else None
-        for h in job['histories']:
+        for h in job.get('histories', []):
             result['histories'].append({'id': h['id'], 'steps': run_history((job['docs'], tmpdir, keep), h)})
         if mod_before is not None:
             mod_after = module_snapshot()
